@@ -46,6 +46,25 @@ theorem full_iff_pinned {w : F → K} (hw : ∀ e, w e ≠ 0) {D : C → F → K
     Full w D k g f 0 u p lam ↔ (lam = 0 ∧ Pinned w D k g f p ∧ u = fluxUpdate w D g p) :=
   Saddle.full_iff_pinned hw hD k g hf u p lam
 
+/-- **uniqueness**: positive flux weights (ordered field) and a connected grid (`KerDTConst`: the kernel of `Dᵀ` are the
+constant cell fields) ⇒ the full block system has at most one solution. Together with the equivalences above: all
+formulations return THE same flux, pressure and multiplier, not merely members of the same solution set.
+(`KerDTConst` for the finite-volume divergence follows from C06 `div_column` — `(Dᵀp)_f = area·(p_lo − p_hi)` — and the
+connectedness of the cell graph of a box; the latter is not formalised here: explicit hypothesis.) -/
+theorem full_system_unique {K : Type*} [Field K] [LinearOrder K] [IsStrictOrderedRing K] {F C : Type*} [Fintype F]
+    [Fintype C] [DecidableEq C] {w : F → K} (hw : ∀ e, 0 < w e) {D : C → F → K} (hker : KerDTConst D) {k : C}
+    {g : F → K} {f : C → K} {r : K} {u u' : F → K} {p p' : C → K} {lam lam' : K}
+    (h : Full w D k g f r u p lam) (h' : Full w D k g f r u' p' lam') : u = u' ∧ p = p' ∧ lam = lam' :=
+  Saddle.full_unique hw hker h h'
+
+/-- non-vacuity of `KerDTConst`: two cells joined by one face -/
+example : KerDTConst (K := ℚ) (F := Fin 1) (C := Fin 2) (fun c _ => if c = 0 then 1 else -1) := by
+  intro p hp c c'
+  have h := hp 0
+  simp [divT, Fin.sum_univ_two] at h
+  have h01 : p 0 = p 1 := by linarith
+  fin_cases c <;> fin_cases c' <;> simp [h01]
+
 /-- linearity in the data: a solution for `(g, f, r)` scaled by `a` is a solution for the scaled right-hand side, for
 every magnitude `a` (the oracle therefore solves the same systems at several magnitudes of the right-hand side) -/
 theorem full_system_homogeneous {w : F → K} {D : C → F → K} {k : C} {g : F → K} {f : C → K} {r : K}
@@ -95,7 +114,7 @@ open Darsia.SaddleBridge in
 /-- `eliminateFlux` (model of `eliminate_flux`): the reduced matrix / rhs it builds ARE the abstract Schur system -/
 theorem model_reduced_is_abstract (w : Saddle.Vec) (D : Saddle.Mat) (k : Nat) (hk : k < D.size)
     (p g f : Nat → ℚ) (lam r : ℚ) :
-    (let E := Saddle.eliminateFlux (Saddle.assembleFull w D k)
+    (let E := Saddle.eliminateFlux (Saddle.assembleFull w D k) (Saddle.assembleFull w D k)
         (Saddle.tabV (w.size + D.size + 1) (cat3 w.size D.size g f r)) w.size
      Saddle.mulVec E.1 (Saddle.tabV (D.size + 1) (cat2 D.size p lam)) = E.2.1)
       ↔ Saddle.Reduced (wF w) (DF w D) ⟨k, hk⟩ (fun e => g e.val) (fun c => f c.val) r (fun c => p c.val) lam :=
@@ -105,7 +124,7 @@ open Darsia.SaddleBridge in
 /-- `eliminateMultiplier` (model of `eliminate_lagrange_multiplier`, dense `dropRowCol`): its rows are the Schur
 complement with row / column `k` skipped -/
 theorem model_pinned_rows (w : Saddle.Vec) (D : Saddle.Mat) (k : Nat) (hk : k < D.size) (g f y : Nat → ℚ) (r : ℚ) :
-    (let E := Saddle.eliminateFlux (Saddle.assembleFull w D k)
+    (let E := Saddle.eliminateFlux (Saddle.assembleFull w D k) (Saddle.assembleFull w D k)
         (Saddle.tabV (w.size + D.size + 1) (cat3 w.size D.size g f r)) w.size
      Saddle.mulVec (Saddle.dropRowCol E.1 k) (Saddle.tabV (D.size - 1) y) = Saddle.dropVec E.2.1 k)
       ↔ ∀ i, i < D.size - 1 →
@@ -114,17 +133,24 @@ theorem model_pinned_rows (w : Saddle.Vec) (D : Saddle.Mat) (k : Nat) (hk : k < 
   pinned_rows w D k hk g f y r
 
 open Darsia.SaddleBridge in
-/-- **what the driver computes solves the original full system**, for each of the three formulations, provided
-the inner solves are correct (`InnerSolveCorrect`: contract of the back-end / of the model's Gauss–Jordan), the
-flux weights are non-zero and `1ᵀD = 0`, `Σ f = 0`, `r = 0` (only the pressure branch uses the last three). -/
-theorem model_linearSolve_sound (hinner : InnerSolveCorrect) (form : Saddle.Form) (w : Saddle.Vec) (D : Saddle.Mat)
+/-- **what the driver computes solves the original full system**, for each of the three formulations. No assumption on
+the inner solver: the model's Gauss–Jordan result is checked in exact arithmetic (`solveChecked`) before it is used, so a
+returned `x` always rests on inner vectors that solve the systems the model built; the theorem then shows that those
+systems are the right ones. Hypotheses: non-zero flux weights; for the pressure branch `1ᵀD = 0`, `Σ f = 0`, `r = 0`. -/
+theorem model_linearSolve_sound (form : Saddle.Form) (w : Saddle.Vec) (D : Saddle.Mat)
     (k : Nat) (hw : ∀ e, e < w.size → w.getD e 0 ≠ 0) (hk : k < D.size)
     (hD : ∀ e, e < w.size → sumTo D.size (fun c => D.get c e) = 0)
     (rhs x : Saddle.Vec) (hr : rhs.size = w.size + D.size + 1)
     (hf : sumTo D.size (fun c => rhs.getD (w.size + c) 0) = 0) (hr0 : rhs.getD (w.size + D.size) 0 = 0)
-    (h : Saddle.linearSolve form (Saddle.assembleFull w D k) rhs w.size k none = .ok x) :
+    (h : Saddle.linearSolve form (Saddle.assembleFull w D k) (Saddle.assembleFull w D k) rhs w.size k none = .ok x) :
     Saddle.mulVec (Saddle.assembleFull w D k) x = rhs :=
-  linearSolve_sound w D k hinner form hw hk hD rhs x hr hf hr0 h
+  linearSolve_sound w D k form hw hk hD rhs x hr hf hr0 h
+
+/-- non-vacuity of `model_linearSolve_sound`: on the two-cell grid (one face of weight 2, source `(1, −1)`, cell 1 pinned)
+every formulation of the model returns `[u | p | lam] = [1 | 2 0 | 0]` -/
+example : ∀ form ∈ [Saddle.Form.full, .fluxReduced, .pressure],
+    Saddle.linearSolve form (Saddle.assembleFull #[2] #[#[1], #[-1]] 1) (Saddle.assembleFull #[2] #[#[1], #[-1]] 1)
+      #[0, 1, -1, 0] 1 1 none = .ok #[1, 2, 0, 0] := by decide +kernel
 
 open Darsia.SaddleBridge in
 /-- `1ᵀD = 0` is not assumed for the finite-volume divergence of a tensor grid: it is C06's theorem
@@ -138,20 +164,28 @@ theorem fv_divergence_colsum_zero (shape : List Nat) (h : List Rat) (e : Nat) (h
 open Darsia.SaddleBridge in
 /-- … hence on every tensor grid (any shape, any voxel sizes) and for all non-zero face weights the three
 formulations of the model return solutions of the full system -/
-theorem model_linearSolve_sound_fv (hinner : InnerSolveCorrect) (form : Saddle.Form) (shape : List Nat) (h : List Rat)
+theorem model_linearSolve_sound_fv (form : Saddle.Form) (shape : List Nat) (h : List Rat)
     (w : Saddle.Vec) (hwn : w.size = numFaces shape) (k : Nat) (hw : ∀ e, e < w.size → w.getD e 0 ≠ 0)
     (hk : k < numCells shape) (rhs x : Saddle.Vec) (hr : rhs.size = w.size + numCells shape + 1)
     (hf : sumTo (numCells shape) (fun c => rhs.getD (w.size + c) 0) = 0)
     (hr0 : rhs.getD (w.size + numCells shape) 0 = 0)
-    (hs : Saddle.linearSolve form (Saddle.assembleFull w (fvDiv shape h) k) rhs w.size k none = .ok x) :
+    (hs : Saddle.linearSolve form (Saddle.assembleFull w (fvDiv shape h) k) (Saddle.assembleFull w (fvDiv shape h) k) rhs w.size k none = .ok x) :
     Saddle.mulVec (Saddle.assembleFull w (fvDiv shape h) k) x = rhs := by
   have hsz := fvDiv_size shape h
-  apply linearSolve_sound w (fvDiv shape h) k hinner form hw (by rw [hsz]; exact hk) _ rhs x
+  apply linearSolve_sound w (fvDiv shape h) k form hw (by rw [hsz]; exact hk) _ rhs x
     (by rw [hsz]; exact hr) (by rw [hsz]; exact hf) (by rw [hsz]; exact hr0) hs
   intro e he
   exact fv_divergence_colsum_zero shape h e (by omega)
 
-/-! ### dispatch (generated acceptance matrix) -/
+open Darsia.SaddleBridge in
+/-- non-vacuity of `model_linearSolve_sound_fv`: the 1-D grid with two cells of size 1 (builder b's `divEntry`), face weight 2,
+source `(1, −1)`, cell 1 pinned: all three formulations of the model return `[1 | 2 0 | 0]` -/
+example : ∀ form ∈ [Saddle.Form.full, .fluxReduced, .pressure],
+    Saddle.linearSolve form (Saddle.assembleFull #[2] (fvDiv [2] [1]) 1) (Saddle.assembleFull #[2] (fvDiv [2] [1]) 1)
+      #[0, 1, -1, 0] 1 1 none = .ok #[1, 2, 0, 0] := by decide +kernel
+
+/-! ### dispatch (generated acceptance matrix; `decide` over a table re-tabulated from the running code = an exhaustive
+observation of the dispatch on a 2×2 grid in Lean form, not a theorem about the source) -/
 
 /-- every formulation named in the documentation constructs and completes a `linear_solve` with the
 default (direct) back-end -/
